@@ -721,7 +721,9 @@ pub fn gen_threads(rec: &mut Recorder, rng: &mut StdRng, iters: usize, nthreads:
                                     "str::trim(s3 + s1)", "str::substring(s1, 1, 3)", "str::substring(s2, 2)", "str::from(x) + s2",
                                     "str::from(zed) + s1", "math::sqrt(x + 1)", "math::sqrt(x + 2)", "floor(1.5) + round(2.5)",
                                     "bitand(x, 6), bitor(x, 1), shl(x, 2)", "contains_any(zed, (2, 5))", "contains(zed, x)",
-                                    "typeof(s1), len(s2), len(zed)", "math::abs(-x)", "max(x, 1.5), min(2.5, x)"]
+                                    "typeof(s1), len(s2), len(zed)", "math::abs(-x)", "max(x, 1.5), min(2.5, x)",
+                                    "str::from(s1)", "str::from((s2, 1))", "str::from(y), str::from((y, zed))", "str::from(true), str::from(())",
+                                    "(s1, x) == (s1, x)", "s1 < s2, s2 < s1", "typeof(x), typeof(1.5), typeof(true), typeof(())"]
         .iter()
         .map(|s| s.to_string())
         .collect();
